@@ -177,8 +177,14 @@ func (r *RectBounder) AddPoint(b Point) {
 		// be spent getting from A to B; the remainder bounds the round-trip
 		// distance (in latitude) from A or B to the min or max latitude
 		// attained along the edge AB.
-		latBudget := 2 * math.Asin(0.5*(r.a.Sub(b.Vector)).Norm()*math.Sin(maxLat))
-		maxDelta := 0.5*(latBudget-latAB.Length()) + dblEpsilon
+		//
+		// The argument of Asin is rounded up by its own rounding error and
+		// clamped: for an edge that runs nearly from pole to pole it is close
+		// to 1, where Asin magnifies a relative error of dblEpsilon by many
+		// orders of magnitude, and an underestimated budget would make the
+		// bound exclude the edge's own endpoints.
+		latBudget := 2 * math.Asin(math.Min(1, 0.5*(r.a.Sub(b.Vector)).Norm()*math.Sin(maxLat)*(1+8*dblEpsilon)))
+		maxDelta := math.Max(0, 0.5*(latBudget-latAB.Length())) + dblEpsilon
 
 		// Test whether AB passes through the point of maximum latitude or
 		// minimum latitude. If the dot product(s) are small enough then the
